@@ -122,11 +122,32 @@ def build_ops(case, tier):
         for kind, pr, root in variants:
             ops.append(("fromproof", root, k, pr))
             meta.append((k, root, kind))
+    # CRAFTED proofs: well-formed nodes with correct hash links that no library-built trie would contain (an extension that
+    # points at a leaf, an extension that points at an extension). The trie with that root holds what its nodes say.
+    import rlp
+    from eth_hash.auto import keccak
+    from trie.utils.nodes import compute_leaf_key, compute_extension_key
+    for val in (b"V" * 40, b"v"):
+        leaf = [bytes(compute_leaf_key((4, 5, 6))), val]
+        leaf_ref = keccak(rlp.encode(leaf)) if len(rlp.encode(leaf)) >= 32 else leaf
+        ext2 = [bytes(compute_extension_key((3,))), leaf_ref]
+        ext2_ref = keccak(rlp.encode(ext2)) if len(rlp.encode(ext2)) >= 32 else ext2
+        for name, top, nodes in (("ext->leaf", [bytes(compute_extension_key((1, 2, 3))), leaf_ref], [leaf]),
+                                 ("ext->ext->leaf", [bytes(compute_extension_key((1, 2))), ext2_ref], [ext2, leaf])):
+            root = keccak(rlp.encode(top))
+            stored = [n for n in nodes if len(rlp.encode(n)) >= 32]
+            key = bytes.fromhex("123456")
+            case.setdefault("crafted_truth", {})[root] = {key: val}
+            for kk, kind, pr in ((key, "true", [top] + stored), (bytes.fromhex("123457"), "true", [top] + stored),
+                                 (bytes.fromhex("12"), "true", [top] + stored), (key, "drop", [top] + stored[:-1] if stored else [top])):
+                ops.append(("fromproof", root, kk, [HX.raw_obs(n) for n in pr]))
+                meta.append((kk, root, kind))
     return ops, meta, r1, r2
 
 
 def oracle(case, ops, meta, outs, r1, r2):
     truth = {r1: case["m1"], r2: case["m2"]}
+    truth.update(case.get("crafted_truth", {}))
     stats = {"bad": 0, "multi": 0}
     for op, mt, out in zip(ops, meta, outs):
         if mt is None:
